@@ -213,11 +213,70 @@ def short_lived_genotypes_scenario(h: Harness, rng):
         h.count(f"short-lived-genotype-streams:{name}" + (":violated" if bad else ""))
 
 
+def grammar_events_scenario(h: Harness, rng):
+    """the program of a genotype is determined by the genotype and the grammar as it IS: (1) after `Grammar.update_weights` changed
+    the production weights, a representation built BEFORE the update maps a genotype to the same program as one built after it;
+    (2) extracting another grammar over some of the same (unweighted) classes changes nothing for this one: the same genotype maps
+    to the same program before and after"""
+    from geneticengine.grammar.grammar import extract_grammar
+    C = gram.ClassSpec
+    # (1) weighted grammar, plain fields (the stack mapping reads the weights at every step, the progressive decider at every choice)
+    spec = gram.Spec([C("A0", True, None), C("Lit", False, 0, [("k", "int")], weight=1), C("Var", False, 0, [("b", "bool")], weight=1),
+                      C("Neg", False, 0, [("e", ("cls", 0))], weight=1), C("Add", False, 0, [("l", ("cls", 0)), ("r", ("cls", 0))], weight=1)], 0, [1, 2, 3, 4])
+    b = gram.build(spec)
+    g = b.extract()
+    shared = NativeRandomSource(rng.randrange(10**6))
+    mk = {"Stack": lambda: Stack(g, gene_length=128), "GE": lambda: GE(g, synth.make_decider("progressive", 4, shared, g), gene_length=64),
+          "SGE": lambda: SGE(g, synth.make_decider("progressive", 4, shared, g), gene_length=32)}
+    old_reps = {n: f() for n, f in mk.items()}
+    genos = {n: [old_reps[n].create_genotype(shared) for _ in range(h.n(12, 60))] for n in mk}
+    for n in mk:
+        for ge in genos[n]:
+            safe(lambda: old_reps[n].genotype_to_phenotype(ge))
+    g.update_weights(1.0, {c: w for c, w in zip(b.classes, [0.0, 5.0, 0.0, 1.0, 0.0])})       # (learning: Lit and Neg gain weight)
+    new_reps = {n: f() for n, f in mk.items()}
+    for n in mk:
+        for i, ge in enumerate(genos[n]):
+            st1, p1 = safe(lambda: old_reps[n].genotype_to_phenotype(ge))
+            st2, p2 = safe(lambda: new_reps[n].genotype_to_phenotype(ge))
+            a, c = (repr(p1) if st1 == "ok" else f"error:{p1}"), (repr(p2) if st2 == "ok" else f"error:{p2}")
+            h.seen(f"weights-updated:{n}:{i}:{a[:40]}", nontrivial=st1 == "ok")
+            if a != c:
+                h.fail(f"{n}.genotype_to_phenotype", "same-genotype-different-program",
+                       f"after Grammar.update_weights: genotype #{i} maps to {a[:100]} through the {n} representation built before the update and to {c[:100]} "
+                       f"through one built after it (same grammar object, same genes)", [n, i])
+                break
+        h.count(f"grammar-events:weights-updated:{n}")
+    # (2) unweighted grammar with a nested abstract class; another grammar over two of its classes comes into being between two mappings
+    spec = gram.Spec([C("A0", True, None), C("A1", True, 0), C("Lit", False, 1, [("k", "int")]), C("Var", False, 1, [("b", "bool")]),
+                      C("Neg", False, 0, [("e", ("cls", 0))]), C("Add", False, 0, [("l", ("cls", 0)), ("r", ("cls", 1))])], 0, [2, 3, 4, 5, 1])
+    b = gram.build(spec)
+    g = b.extract()
+    reps = {"Stack": Stack(g, gene_length=128), "GE": GE(g, synth.make_decider("progressive", 4, shared, g), gene_length=64),
+            "SGE": SGE(g, synth.make_decider("progressive", 4, shared, g), gene_length=32)}
+    genos = {n: [reps[n].create_genotype(shared) for _ in range(h.n(12, 60))] for n in reps}
+    first = {n: [safe(lambda: reps[n].genotype_to_phenotype(ge)) for ge in genos[n]] for n in reps}
+    extract_grammar([b.classes[2], b.classes[5]], b.classes[0])        # a smaller language over two of the same classes
+    for n in reps:
+        for i, ge in enumerate(genos[n]):
+            st2, p2 = safe(lambda: reps[n].genotype_to_phenotype(ge))
+            st1, p1 = first[n][i]
+            a, c = (repr(p1) if st1 == "ok" else f"error:{p1}"), (repr(p2) if st2 == "ok" else f"error:{p2}")
+            h.seen(f"other-grammar:{n}:{i}:{a[:40]}", nontrivial=st1 == "ok")
+            if a != c:
+                h.fail(f"{n}.genotype_to_phenotype", "same-genotype-different-program",
+                       f"genotype #{i} mapped to {a[:100]}; after an unrelated extract_grammar() over two of the (unweighted) classes the same genotype maps to "
+                       f"{c[:100]} (same representation, same grammar object)", [n, i])
+                break
+        h.count(f"grammar-events:other-grammar:{n}")
+
+
 def run(h: Harness):
     rng = h.rng
     decider_state_scenario(h, rng)
     persistent_handler_scenario(h, rng)
     short_lived_genotypes_scenario(h, rng)
+    grammar_events_scenario(h, rng)
     C = gram.ClassSpec
     # fixed grammars with PLAIN float / str fields (drawn through the derived primitives of the gene-backed sources)
     fixed = [gram.Spec([C("A0", True, None), C("L", False, 0, [("x", "float")]), C("N", False, 0, [("l", ("cls", 0)), ("r", ("cls", 0))])], 0, [1, 2]),
